@@ -523,3 +523,233 @@ fn spec_clamp01_is_clamp() {
     if v >= 0.0 && v <= 1.0 { assert!(c.to_bits() == v.to_bits(), "[C05] clamp: inside [0,1] unchanged"); }
     if v.is_nan() { assert!(c.is_nan(), "[C05] clamp: NaN stays NaN"); }
 }
+
+// ---------------------------------------------------------------------------------------------------
+// (3) entry points: the rectangle / offset arithmetic of patch() and of blend()
+// ---------------------------------------------------------------------------------------------------
+// The kernels above are proved for every rectangle handed to them; what follows decides WHICH rectangle the two
+// entry points hand over. Coordinates: every channel of an ImageWithRegion carries the frame rectangle (Region)
+// its buffer covers; buffer position (px, py) of a channel with region R is frame sample (R.left + px, R.top + py).
+//
+// patch():  for every PatchTarget (x, y) of a PatchRef (x0, y0, width, height), every channel c and every frame
+//   sample (X, Y) of the canvas channel:
+//       (X, Y) in [x, x+width) x [y, y+height)   (and its source sample lies in the reference's buffer)
+//            => canvas'(X, Y) = spec_blend_pixel(blending[c], canvas(X, Y), reference(x0 + (X - x), y0 + (Y - y)))
+//       otherwise canvas'(X, Y) = canvas(X, Y);
+//   colour channels use blending[0], extra channel i uses blending[1 + i]; the reference is never written; nothing
+//   is read or written outside the two buffers; a target that misses the canvas rectangle changes nothing.
+// Preconditions (call site render.rs:183-195 + Patches::parse, jxl-frame/src/data/patch.rs:84-200):
+//   * both images have the same channel list, every buffer of the reference is F32 (the reference went through
+//     RenderedImage::blend: composite_preprocess / blend() convert every channel, see cp.* in image.rs);
+//   * one blending entry per colour-channel group + extra channel (patch.rs:173-190: take(num_extra + 1));
+//   * patch width / height >= 1 (patch.rs:131-132: varint + 1).
+// Coordinates themselves are NOT validated by the parser: x0, y0, width, height are any u32, x, y any i32.
+use jxl_frame::data::{PatchBlendMode, PatchTarget};
+use jxl_oxide_common::BundleDefault;
+
+fn image_header_with_extra(ec: &[jxl_image::ExtraChannelInfo]) -> ImageHeader {
+    let size = <jxl_image::SizeHeader as BundleDefault<()>>::default_with_context(());
+    let mut metadata = <jxl_image::ImageMetadata as BundleDefault<()>>::default_with_context(());
+    for e in ec {
+        metadata.ec_info.push(e.clone());
+    }
+    ImageHeader { size, metadata }
+}
+
+/// a value in lo..=hi held in a byte (keeps CBMC's index arithmetic narrow)
+fn small_i32(lo: i8, hi: i8) -> i32 {
+    let v: i8 = kani::any();
+    kani::assume(lo <= v && v <= hi);
+    v as i32
+}
+
+/// H rows of W finite samples (row loops of at most 4 iterations: the harnesses below run with unwind(5), which is
+/// what bounds the kernels' loops)
+fn finite_samples<const W: usize, const H: usize>() -> [[f32; W]; H] {
+    let a: [[f32; W]; H] = kani::any();
+    let mut y = 0;
+    while y < H {
+        let mut x = 0;
+        while x < W {
+            kani::assume(a[y][x].is_finite());
+            x += 1;
+        }
+        y += 1;
+    }
+    a
+}
+
+/// The real `AlignedGrid<f32>` holding `samples`, built WITHOUT its constructor: `with_alloc_tracker` resizes its Vec by
+/// an alignment offset derived from the allocation address, which costs CBMC 4-5 minutes per grid (measured). The grid is
+/// assembled from a field-for-field mirror of jxl_grid::AlignedGrid (crates/jxl-grid/src/lib.rs:43-49) with offset 0 (an
+/// allocation that is already aligned), and every accessor is checked against the intended contents right here, so a
+/// layout mismatch fails the harness (untagged => UNDECIDED) instead of passing silently.
+#[allow(dead_code)]
+struct GridMirror {
+    width: usize,
+    height: usize,
+    offset: usize,
+    buf: Vec<f32>,
+    handle: Option<jxl_grid::AllocHandle>,
+}
+
+fn float_grid<const W: usize, const H: usize>(samples: &[[f32; W]; H]) -> AlignedGrid<f32> {
+    let (w, h) = (W, H);
+    let samples = samples.as_flattened();
+    let N = w * h;
+    let mut buf = Vec::with_capacity(N);
+    buf.extend_from_slice(samples);
+    let g: AlignedGrid<f32> = unsafe { std::mem::transmute(GridMirror { width: w, height: h, offset: 0, buf, handle: None }) };
+    assert!(g.width() == w && g.height() == h && g.buf().len() == N && g.tracker().is_none());
+    assert!(N == 0 || (g.buf()[0].to_bits() == samples[0].to_bits() && g.buf()[N - 1].to_bits() == samples[N - 1].to_bits()));
+    g
+}
+
+fn float_buffer<const W: usize, const H: usize>(samples: &[[f32; W]; H]) -> ImageBuffer {
+    ImageBuffer::F32(float_grid(samples))
+}
+
+/// A `Vec` whose buffer is the given stack array (never grown, never dropped: every owner is `mem::forget`-ed).
+/// CBMC propagates constants through stack objects but not through heap allocations; with the blend modes in a heap
+/// Vec every kernel arm is unrolled for every channel iteration (measured: symbolic execution alone > 12 min).
+fn stack_vec<T, const N: usize>(a: &mut [T; N]) -> Vec<T> {
+    unsafe { Vec::from_raw_parts(a.as_mut_ptr(), N, N) }
+}
+
+fn sample_of(img: &ImageWithRegion, channel: usize, at: usize) -> f32 {
+    img.buffer()[channel].as_float().unwrap().buf()[at]
+}
+
+/// Geometry of one patch application on one channel, in frame coordinates (i64: no overflow in the spec).
+#[derive(Clone, Copy)]
+struct PatchGeo {
+    canvas: (i64, i64, i64, i64), // left, top, width, height of the canvas channel's buffer
+    reference: (i64, i64, i64, i64),
+    src: (i64, i64),              // x0, y0
+    size: (i64, i64),             // patch width, height
+    target: (i64, i64),           // x, y
+}
+
+/// Some((reference buffer index)) if canvas buffer position (px, py) is painted by the patch, None if it is kept.
+fn spec_patch_source(g: PatchGeo, px: usize, py: usize) -> Option<usize> {
+    let (x, y) = (g.canvas.0 + px as i64, g.canvas.1 + py as i64);
+    let inside = g.target.0 <= x && x < g.target.0 + g.size.0 && g.target.1 <= y && y < g.target.1 + g.size.1;
+    if !inside {
+        return None;
+    }
+    let (sx, sy) = (g.src.0 + (x - g.target.0), g.src.1 + (y - g.target.1));
+    let (bx, by) = (sx - g.reference.0, sy - g.reference.1);
+    if bx < 0 || by < 0 || bx >= g.reference.2 || by >= g.reference.3 {
+        return None; // no such reference sample: the canvas sample is kept
+    }
+    Some((by * g.reference.2 + bx) as usize)
+}
+
+const CW: usize = 4; // canvas buffer
+const CH: usize = 3;
+const RW: usize = 4; // reference buffer
+const RH: usize = 3;
+
+/// One colour channel, no extra channels, one target. Canvas 4x3 at a symbolic origin, reference 4x3 at a symbolic
+/// origin, patch 1..=3 x 1..=2 anywhere inside the reference, target anywhere from wholly left / above to wholly
+/// right / below the canvas.
+fn patch_rectangle_contract(mode: PatchBlendMode, op: SpecOp) {
+    let ih = image_header_with_extra(&[]);
+    let canvas_region = Region { left: small_i32(-3, 3), top: small_i32(-3, 3), width: CW as u32, height: CH as u32 };
+    let ref_region = Region { left: small_i32(-2, 2), top: small_i32(-2, 2), width: RW as u32, height: RH as u32 };
+    let (pw, ph) = (small_i32(1, 3), small_i32(1, 2));
+    // the source rectangle lies in the reference's buffer (a valid stream on a wholly rendered reference frame)
+    let (x0, y0) = (small_i32(0, 5), small_i32(0, 4));
+    kani::assume(ref_region.left <= x0 && x0 + pw <= ref_region.left + RW as i32);
+    kani::assume(ref_region.top <= y0 && y0 + ph <= ref_region.top + RH as i32);
+    let (tx, ty) = (small_i32(-6, 7), small_i32(-5, 6));
+
+    let old: [[f32; CW]; CH] = finite_samples();
+    let refs: [[f32; RW]; RH] = finite_samples();
+    let mut canvas = ImageWithRegion::new(1, None);
+    canvas.append_channel(float_buffer(&old), canvas_region);
+    let mut reference = ImageWithRegion::new(1, None);
+    reference.append_channel(float_buffer(&refs), ref_region);
+    let (old, refs) = (old.as_flattened(), refs.as_flattened());
+
+    let mut infos = [BlendingModeInformation { mode, alpha_channel: 0, clamp: kani::any() }];
+    let mut targets = [PatchTarget { x: tx, y: ty, blending: stack_vec(&mut infos) }];
+    let patch_ref = PatchRef { ref_idx: 0, x0: x0 as u32, y0: y0 as u32, width: pw as u32, height: ph as u32, patch_targets: stack_vec(&mut targets) };
+    let r = patch(&ih, &mut canvas, &reference, &patch_ref);
+    assert!(r.is_ok(), "[C05,C01] patch() on float buffers has no failure path");
+
+    let g = PatchGeo {
+        canvas: (canvas_region.left as i64, canvas_region.top as i64, CW as i64, CH as i64),
+        reference: (ref_region.left as i64, ref_region.top as i64, RW as i64, RH as i64),
+        src: (x0 as i64, y0 as i64),
+        size: (pw as i64, ph as i64),
+        target: (tx as i64, ty as i64),
+    };
+    let b = plain(op);
+    // one symbolic buffer position of the canvas = every position
+    let (px, py) = (small_i32(0, CW as i8 - 1) as usize, small_i32(0, CH as i8 - 1) as usize);
+    let at = py * CW + px;
+    let got = sample_of(&canvas, 0, at);
+    match spec_patch_source(g, px, py) {
+        Some(src_at) => {
+            let expect = spec_blend_pixel(b, old[at], 0.0, refs[src_at], 0.0);
+            assert!(same_f32(got, expect),
+                "[C05] a canvas sample under the patch target equals spec_blend_pixel(old sample, reference sample at (x0 + X - x, y0 + Y - y))");
+        }
+        None => assert!(got.to_bits() == old[at].to_bits(), "[C05] canvas samples outside the patch target are unchanged"),
+    }
+    let (qx, qy) = (small_i32(0, RW as i8 - 1) as usize, small_i32(0, RH as i8 - 1) as usize);
+    assert!(sample_of(&reference, 0, qy * RW + qx).to_bits() == refs[qy * RW + qx].to_bits(), "[C05] the reference frame is not modified");
+    assert!(canvas.regions_and_shifts()[0].0 == canvas_region && canvas.color_channels() == 1, "[C05] the canvas keeps its rectangle");
+
+    let painted = spec_patch_source(g, px, py).is_some();
+    kani::cover!(painted && tx < canvas_region.left && ty < canvas_region.top); // clipped at the left / top edge
+    kani::cover!(painted && tx + pw > canvas_region.left + CW as i32 && ty + ph > canvas_region.top + CH as i32); // clipped right / bottom
+    kani::cover!(painted && x0 > ref_region.left && y0 > ref_region.top && px == 3 && py == 2);
+    kani::cover!(!painted && tx + pw <= canvas_region.left); // target wholly left of the canvas
+    kani::cover!(!painted && ty >= canvas_region.top + CH as i32); // wholly below
+    kani::cover!(!painted && tx <= canvas_region.left + px as i32 - pw && tx + pw > canvas_region.left); // kept sample beside a visible target
+    std::mem::forget(r);
+    std::mem::forget(canvas);
+    std::mem::forget(reference);
+    std::mem::forget(patch_ref);
+}
+
+#[kani::proof]
+#[kani::unwind(5)]
+fn patch_replace_rectangle() {
+    patch_rectangle_contract(PatchBlendMode::Replace, SpecOp::Replace);
+}
+
+#[kani::proof]
+#[kani::unwind(5)]
+fn patch_add_rectangle() {
+    patch_rectangle_contract(PatchBlendMode::Add, SpecOp::Add);
+}
+
+
+// PROBE-BEGIN
+#[kani::proof]
+#[kani::unwind(5)]
+fn probe_patch() {
+    let ih = image_header_with_extra(&[]);
+    let canvas_region = Region { left: 0, top: 0, width: 2, height: 2 };
+    let ref_region = Region { left: 0, top: 0, width: 2, height: 2 };
+    let old: [[f32; 2]; 2] = finite_samples();
+    let refs: [[f32; 2]; 2] = finite_samples();
+    let mut canvas = ImageWithRegion::new(1, None);
+    canvas.append_channel(float_buffer(&old), canvas_region);
+    let mut reference = ImageWithRegion::new(1, None);
+    reference.append_channel(float_buffer(&refs), ref_region);
+    let mut infos = [BlendingModeInformation { mode: PatchBlendMode::Replace, alpha_channel: 0, clamp: false }];
+    let mut targets = [PatchTarget { x: 1, y: 1, blending: stack_vec(&mut infos) }];
+    let patch_ref = PatchRef { ref_idx: 0, x0: 0, y0: 0, width: 1, height: 1, patch_targets: stack_vec(&mut targets) };
+    let r = patch(&ih, &mut canvas, &reference, &patch_ref);
+    assert!(r.is_ok());
+    assert!(sample_of(&canvas, 0, 3).to_bits() == refs[0][0].to_bits());
+    std::mem::forget(r);
+    std::mem::forget(canvas);
+    std::mem::forget(reference);
+    std::mem::forget(patch_ref);
+}
+// PROBE-END
